@@ -112,8 +112,8 @@ PROPS.update({
                quick=1500, thorough=30000),
     "C10": _e2("TestVerifC10", "Generated open/close/reopen histories with stale calls on the closed connection and generated schedules (including close/reopen between the poller's fetch and dispatch); judged only on the bystander: its data, its callbacks, its liveness.",
                "scenario = A (handler or not, 0-3 peer writes, closed by user or peer) x B opened after A's teardown (poller kicked so that the slot is spliced back: B re-uses A's slot and descriptor number) or before x 1-5 stale calls on A drawn from 18 Connection/Reader/Writer methods; non-trivial = B re-used A's slot and at least one stale call ran after B was open; distinct = scenario + event sequence"),
-    "C12": _e2("TestVerifC12", "The space close mode x buffered input x pending output x callbacks x method x repeat x prior timed wait (7296 points) is sampled with generated schedules in the quick tier and enumerated completely in the thorough tier; 'blocks' is exact (the caller is parked at quiescence), panics are recovered and reported.",
-               "space = {user, peer, peer-then-user, detach} x {0, 5 bytes buffered} x {no, malloc'd unflushed output} x {no callbacks, OnRequest, OnConnect+OnRequest} x 38 Connection/Reader/Writer calls x {once, twice} x {no read timeout, a read timeout set and one Reader call that really waited before the close}; every point is non-trivial (the method runs after the close reached quiescence); distinct = point of the space",
+    "C12": _e2("TestVerifC12", "The space close mode x buffered input x pending output x callbacks x method x repeat x prior timed wait x prior big packet (14592 points) is sampled with generated schedules in the quick tier and enumerated completely in the thorough tier; 'blocks' is exact (the caller is parked at quiescence), panics are recovered and reported.",
+               "space = {user, peer, peer-then-user, detach} x {0, 5 bytes buffered} x {no, malloc'd unflushed output} x {no callbacks, OnRequest, OnConnect+OnRequest} x 38 Connection/Reader/Writer calls x {once, twice} x {no read timeout, a read timeout set and one Reader call that really waited before the close} x {no, a 9000-byte packet received at once, read and released long before the close}, each followed by a final Close that must return; every point is non-trivial (the method runs after the close reached quiescence); distinct = point of the space",
                quick=600, thorough=4000),
     "C04": dict(_e2("TestVerifC04", "Two complementary generated searches against one oracle, the position-keyed byte stream: (E2) both directions of a connection on a socketpair with a tiny send buffer under generated schedules, which reaches the flusher/poller and reader/poller hand-off windows exactly; (E3) generated bulk workloads on real threads over TCP4/TCP6/unix with generated socket buffer sizes, writer and reader API mixes, where the kernel chooses the partial-write boundaries.",
                "E2: flush scenario (1-3 flushes of 1..12xSO_SNDBUF through Malloc/Write/WriteBinary/mixed/pieces/Append/Malloc+MallocAck, peer drain script, peer close) or read scenario (1-4 Reader calls up to 9000 bytes, peer chunks, peer close), generated schedule; non-trivial = the flusher parked waiting for the poller / a Reader call parked waiting for a delivery. E3: 1-4 connections x {tcp4,tcp6,unix} x payload up to 1 MiB (8 MiB thorough) each way x write chunking and API mix x reader op mix (Next, Peek+Skip, ReadBinary, Slice, Read, ReadString, Peek+ReadByte+Peek+Skip, ReadByte runs) x one-step handlers x close right after the last Flush x SO_SNDBUF/SO_RCVBUF x reader pace; non-trivial = a payload of at least 4x the send buffer or above 64 KiB. distinct = scenario (+ event sequence for E2)"),
@@ -167,7 +167,7 @@ PROPS.update({
                quick=20, thorough=500, variant="instr",
                level_note="trusted: the close(2) audit points are inserted by tools/vinstr before every syscall.Close / file.Close of the current sources; F_DUPFD parks victims atomically on freed numbers; /proc/self/fd census"),
     "C18": _e3("TestVerifC18", "Generated sequences of SetNumLoops/SetLoadBalance applied between phases on private managers, each phase with 1-32 goroutines calling Pick concurrently (the first phase races the lazy initialisation); pool size, membership, liveness of every poller (an operator registered on it must receive an event), descriptor census after shrink and Close, round-robin spread.",
-               "scenario = initial size 1-5 x 1-4 phases of (loops 1-6, RoundRobin/Random, 1/2/8/32 goroutines x 1-40 Picks); non-trivial = at least one phase with concurrent Picks; distinct = scenario",
+               "scenario = initial size 1-5 x 1-4 phases of (loops 1-6, RoundRobin/Random, 1/2/8/32 goroutines x 1-40 Picks, then 0/1/3 Trigger calls on every poller so that the next shrink or Close meets an unconsumed wake-up); non-trivial = at least one phase with concurrent Picks; distinct = scenario",
                quick=12, thorough=300),
     "C19": dict(_e3("TestVerifC19", "The E3 workloads (bulk streams both ways, Shutdown during traffic, concurrent dials incl. failing ones, pool reconfiguration, descriptor lifecycles) plus a close race (one reader, one writer, 1-4 closers on both ends) and a writer stuck in a partial flush closed from other goroutines (with and without a slow user close callback), Slice readers of one buffer read and released on several goroutines while the parent reads, writes, releases and closes, and (second binary, package mux) a ShardQueue on a real connection with 2-8 concurrent adders, nil getters, Close during the Adds and a peer that goes away, run under the Go race detector inside the documented concurrency contract; every race report is a violation.",
                "workload drawn from {bulk, shutdown, dial, pool, closerace, blockedwrite, dialhold, fdsteps, slices, shardqueue} with generated parameters; every case is non-trivial (several goroutines of different roles - poller, handler task, user reader/writer, closer - touch the same connection or pool); distinct = workload kind + parameters",
